@@ -22,7 +22,14 @@ FAULTS = [None,
           ("g1 == ", "gUNDECL == ", "undeclared identifier in a guard"),
           ("g1 = ", "gx = bc + ", "type error in an update"),
           ("int g2;", "int g2 = gx;", "clock used as integer initialiser"),
-          ("gx <= ", "g2++ <= ", "side effect in an invariant")]
+          ("gx <= ", "g2++ <= ", "side effect in an invariant"),
+          # name clashes (xml text, replacement, xta text, replacement, what)
+          ("<name>T2</name>", "<name>T1</name>", "process T2(", "process T1(", "second template named like the first"),
+          ("<name>T2</name>", "<name>g2</name>", "process T2(", "process g2(", "template named like a global variable"),
+          ("<name>T2</name>", "<name>gsel_t</name>", "process T2(", "process gsel_t(", "template named like a type"),
+          ("<name>T2</name>", "<name>GHI</name>", "process T2(", "process GHI(", "template named like a constant"),
+          ("int g2;", "int g1;", "global variable declared twice"),
+          ("int g2;", "int g2; chan gx;", "global declared again with another type")]
 
 
 def bound():
@@ -57,6 +64,9 @@ def run_shard(prefs):
         for f in faults:
             if f is None:
                 items.append((m, r, x, a, None))
+            elif len(f) == 5:
+                if f[0] in x and f[2] in a:
+                    items.append((m, r, x.replace(f[0], f[1], 1), a.replace(f[2], f[3], 1), f[4]))
             elif f[0] in a and xmlgen.esc(f[0]) in x:
                 items.append((m, r, x.replace(xmlgen.esc(f[0]), xmlgen.esc(f[1]), 1), a.replace(f[0], f[1], 1), f[2]))
     rx = xmlgen.run_docs(w, [it[2] for it in items], want=["dump", "nosymtypes"], batch=50)
